@@ -7,6 +7,7 @@ package main
 import (
 	"fmt"
 	"go/ast"
+	"go/printer"
 	"go/token"
 	"go/types"
 	"os"
@@ -577,3 +578,12 @@ func pathTo(root ast.Node, target ast.Node) []ast.Node {
 }
 
 func exprString(e ast.Expr) string { return types.ExprString(e) }
+
+// fullString prints a node completely (types.ExprString elides composite literals).
+func fullString(n ast.Node) string {
+	var sb strings.Builder
+	if err := printer.Fprint(&sb, token.NewFileSet(), n); err != nil {
+		return ""
+	}
+	return sb.String()
+}
